@@ -33,6 +33,10 @@ type payload struct {
 	Inputs  map[string]*lang.Val `json:"inputs,omitempty"`
 	Stdlib  bool                 `json:"stdlib,omitempty"` // use the real stdlib module map instead of the host module
 	DataMod bool                 `json:"datamod,omitempty"` // compile with the function-free data module and decode WITHOUT a module map
+	// RawMods: modules supplied through the embedder's own Importable, whose
+	// Import returns a bare immutable map (no __module_name__, unlike the
+	// ones AddBuiltinModule makes): name -> key -> int value
+	RawMods map[string]map[string]int64 `json:"raw_mods,omitempty"`
 	prog    *lang.Program        // generated cases only (not saved): lets the failure path ask the reference interpreter
 }
 
@@ -57,7 +61,24 @@ func dataModule() *tengo.ModuleMap {
 
 const budget = 2000000
 
+// rawImportable is an embedder-defined module: whatever Import returns is
+// what import("name") yields.
+type rawImportable struct{ m *tengo.ImmutableMap }
+
+func (r rawImportable) Import(string) (interface{}, error) { return r.m, nil }
+
 func moduleMap(p payload) *tengo.ModuleMap {
+	if len(p.RawMods) > 0 {
+		mm := bridge.HostModuleMap()
+		for name, kv := range p.RawMods {
+			m := &tengo.ImmutableMap{Value: map[string]tengo.Object{}}
+			for k, v := range kv {
+				m.Value[k] = &tengo.Int{Value: v}
+			}
+			mm.Add(name, rawImportable{m})
+		}
+		return mm
+	}
 	if p.DataMod {
 		return dataModule()
 	}
@@ -387,6 +408,41 @@ func TestStdlibPrograms(t *testing.T) {
 			check(t, "TestStdlibPrograms", payload{Source: s, Stdlib: true}, []string{"stdlib-program"})
 		})
 	}
+}
+
+// TestCustomImportables: 2..4 embedder-defined modules without a module name
+// (equal or different contents), imported under different names, each 1..3
+// times, also from inside functions: after de-duplication and after
+// serialization every import expression still yields its own module.
+func TestCustomImportables(t *testing.T) {
+	rapid.Check(t, func(t *rapid.T) {
+		p := payload{RawMods: map[string]map[string]int64{}}
+		n := rapid.IntRange(2, 4).Draw(t, "modules")
+		var sb strings.Builder
+		for i := 0; i < n; i++ {
+			name := fmt.Sprintf("raw%d", i)
+			kv := map[string]int64{"id": int64(rapid.IntRange(0, 2).Draw(t, "id"))}
+			if rapid.Bool().Draw(t, "second-key") {
+				kv["w"] = int64(rapid.IntRange(0, 1).Draw(t, "w"))
+			}
+			p.RawMods[name] = kv
+		}
+		uses := rapid.IntRange(n, 3*n).Draw(t, "uses")
+		for u := 0; u < uses; u++ {
+			name := fmt.Sprintf("raw%d", rapid.IntRange(0, n-1).Draw(t, "which"))
+			switch rapid.IntRange(0, 2).Draw(t, "form") {
+			case 0:
+				fmt.Fprintf(&sb, "u%d := import(%q)\n", u, name)
+			case 1:
+				fmt.Fprintf(&sb, "u%d := import(%q).id * 10 + %d\n", u, name, u)
+			default:
+				fmt.Fprintf(&sb, "u%d := (func() { m := import(%q); return [m.id, m] })()\n", u, name)
+			}
+		}
+		sb.WriteString("h := import(\"hostmod\").answer\n")
+		p.Source = sb.String()
+		check(t, "TestCustomImportables", p, []string{"custom-importable"})
+	})
 }
 
 var dataModPrograms = []string{
